@@ -52,7 +52,8 @@ def case_from_model(v) -> dict:
             plan.append(L.ERR if got < 0 else max(got, 1))
     return {"data": c["data"], "limit": c["limit"], "is_max": c["is_max"], "hasri": c["hasri"],
             "wrapper": c.get("wrapper", "raw"), "bufsize": c.get("bufsize", 8), "plan": plan, "default": L.HUGE,
-            "ops": [[ln["op"], ln["n"]] for ln in hist], "exp": hist}
+            "ops": [[ln["op"], ln["n"]] for ln in hist], "exp": hist,
+            "dq": c.get("dq", False), "ex": c.get("ex", "default")}
 
 
 ALPHA = b"ab\ncd\nef\n\ngh"
@@ -89,7 +90,9 @@ def rand_case(rng, big=False):
     ops = rand_ops(rng, wrapper, rng.randint(1, 6))
     if rng.random() < 0.5:
         ops.append(["readall", -1])
-    return {"data": data, "limit": limit, "is_max": rng.random() < 0.5, "hasri": rng.random() < 0.6,
+    hooked = rng.random() < 0.25
+    return {"dq": hooked and rng.random() < 0.7, "ex": rng.choice(["default", "quiet", "raise"]) if hooked else "default",
+            "data": data, "limit": limit, "is_max": rng.random() < 0.5, "hasri": rng.random() < 0.6,
             "wrapper": wrapper, "bufsize": rng.choice([1, 2, 4, 8, 64, 8192]), "plan": plan,
             "default": rng.choice([1, 2, 3, L.HUGE]), "ops": ops}
 
@@ -121,6 +124,39 @@ def enum_cases(quick: bool):
                                 out.append({"data": data, "limit": limit, "is_max": is_max, "hasri": hasri,
                                             "wrapper": wrapper, "bufsize": bs, "plan": [], "default": k,
                                             "ops": ops + [["readall", -1]]})
+    return out
+
+
+HOOKS = [(True, "default"), (True, "quiet"), (True, "raise"), (False, "quiet"), (False, "raise")]
+
+
+def hook_cases(quick: bool):
+    """Subclasses overriding the documented hooks (on_disconnect returning normally, on_exhausted
+    returning / raising its own exception), is_max both ways, crossed with every call pattern on
+    the raw stream and under BufferedReader (thorough: also TextIOWrapper), for bodies shorter than
+    / equal to / longer than declared, fragmentation 1 / whole, and an OSError at the first or
+    second underlying call."""
+    data = list(b"ab\ncd")
+    out = []
+    for wrapper in (("raw", "buffered") if quick else ("raw", "buffered", "text")):
+        singles = []
+        for op in OPS[wrapper]:
+            if op in SIZED:
+                singles += [[op, n] for n in ((3,) if quick else (1, 3, 9))]
+            elif op == "readline":
+                singles += [[op, -1], [op, 2]]
+            else:
+                singles.append([op, -1])
+        for dq, ex in HOOKS:
+            for limit in ((3, 7) if quick else (0, 3, 5, 7)):
+                for is_max in (False, True):
+                    for k in (1, L.HUGE):
+                        for plan in (([], [L.ERR]) if quick else ([], [L.ERR], [1, L.ERR])):
+                            for hasri in ((True,) if quick else (True, False)):
+                                for s1 in singles:
+                                    out.append({"data": data, "limit": limit, "is_max": is_max, "hasri": hasri,
+                                                "wrapper": wrapper, "bufsize": 2, "plan": plan, "default": k,
+                                                "ops": [s1, ["readall", -1]], "dq": dq, "ex": ex})
     return out
 
 
@@ -231,7 +267,8 @@ def judge_traces(ctx: Ctx, cases, kind):
         evs = [e for ln in tr[1:] for e in ln["ev"]]
         short = any(0 < got < m for m, got in evs)
         if short or any(got < 0 for _, got in evs) or len(case["data"]) != case["limit"]:
-            ctx.nontrivial.add((bytes(case["data"]), case["limit"], case["is_max"], case["hasri"], case["wrapper"],
+            ctx.nontrivial.add((case.get("dq", False), case.get("ex", "default"),
+                                bytes(case["data"]), case["limit"], case["is_max"], case["hasri"], case["wrapper"],
                                 case["bufsize"], tuple(map(str, case["plan"])), case["default"],
                                 tuple(map(tuple, case["ops"]))))
         if t % 1499 == 0:
@@ -244,7 +281,9 @@ def judge_traces(ctx: Ctx, cases, kind):
         op = case["ops"][r["i"]][0]
         case["ops"] = case["ops"][: r["i"] + 1]
         case.pop("exp", None)
-        ctx.violation(f"{r['clause']}:{case['wrapper']}:{op}", r["clause"], case, kind="trace")
+        hook = "" if not case.get("dq") and case.get("ex", "default") == "default" else \
+            f":hook-{'dq' if case.get('dq') else 'nodq'}-{case.get('ex', 'default')}"
+        ctx.violation(f"{r['clause']}:{case['wrapper']}:{op}{hook}", r["clause"], case, kind="trace")
     return len(lines)
 
 
@@ -316,7 +355,7 @@ def growth_models(ctx: Ctx):
     ctx.model_check(AREA, "MCBufferedLS", "MCBQ_fixed2" if q else "MCBQ_fixed", timeout=900)
     if not q:
         ctx.model_check(AREA, "MCBufferedLS", "MCBT_wide", timeout=3000)
-    for variant in (("over2",) if q else ("over", "f10")):
+    for variant in (() if q else ("over", "f10")):
         r = tlc.run_tlc(AREA, "MCBufferedLS", f"MCBQ_{variant}", workers=ctx.workers, tmp=ctx.tmp,
                         allow_violation=True, timeout=600)
         ctx.notes[f"buffered_model_{variant}_violates"] = r.invariant_violated
@@ -339,6 +378,31 @@ def growth_models(ctx: Ctx):
             ctx.assumptions.append("Apalache obligations not (all) discharged in this run: see coverage.apalache")
 
 
+def hooks_models(ctx: Ctx, rng):
+    """Documented subclass hooks: the model variant "hooks" (quiet on_disconnect, on_exhausted
+    default / quiet / raising) satisfies the contract incl. the bound on underlying reads per call
+    (LoopBound, StepBound); the variant whose readall loop only stops on is_max must fail; the
+    behaviours of the hooks variant are replayed on real subclasses."""
+    q = ctx.quick
+    if not q:
+        ctx.model_check(AREA, "MCLimitedStream", "MCT_hooks", timeout=1500)
+    r = tlc.run_tlc(AREA, "MCLimitedStream", "MCQ_hookspin", workers=ctx.workers, tmp=ctx.tmp, allow_violation=True, timeout=600)
+    ctx.notes["model_hookspin_violates"] = r.invariant_violated
+    if r.invariant_violated not in ("LoopBound", "Contract"):
+        raise tlc.MachineryError("readall variant that only stops on is_max was not refuted (LoopBound)")
+    # one run checks the invariants of the hooks variant and exports its behaviours
+    beh = [v for v in ctx.export(AREA, "MCLimitedStream", "MCX_hooks", count_states=True, timeout=900)
+           if isinstance(v, dict) and "hist" in v]
+    ctx.notes["hook_behaviours_exported"] = len(beh)
+    if not beh:
+        raise tlc.MachineryError("no behaviours exported from the hooks model variant")
+    cap = 1000 if q else 30000
+    if len(beh) > cap:
+        beh = rng.sample(beh, cap)
+    judge_traces(ctx, [case_from_model(v) for v in beh], "hooks-model-behaviour")
+    judge_traces(ctx, hook_cases(q), "hooks-driver")
+
+
 def growth_replay(ctx: Ctx, rng):
     """spec -> code for the buffering layer: every exported behaviour of BufferedLS.tla is run on a
     real io.BufferedReader(LimitedStream(..), buffer_size=B); contract verdicts + drift."""
@@ -348,7 +412,7 @@ def growth_replay(ctx: Ctx, rng):
     ctx.notes["buffered_behaviours_exported"] = len(beh)
     if not beh:
         raise tlc.MachineryError("no behaviours exported from the buffered model")
-    cap = 2500 if q else 40000
+    cap = 1500 if q else 40000
     if len(beh) > cap:
         beh = rng.sample(beh, cap)
     ctx.notes["buffered_behaviours_replayed"] = len(beh)
@@ -379,7 +443,7 @@ def run(ctx: Ctx):
         for cfg in ("MCT_deep", "MCT_wide", "MCT_big"):
             ctx.model_check(AREA, "MCLimitedStream", cfg, timeout=3000)
     # non-vacuity: the models of the two defective implementations violate the contract
-    for variant in ("f10", "trunc"):
+    for variant in (("f10",) if q else ("f10", "trunc")):
         r = tlc.run_tlc(AREA, "MCLimitedStream", f"MCQ_{variant}", workers=ctx.workers, tmp=ctx.tmp,
                         allow_violation=True, timeout=600)
         ctx.notes[f"model_{variant}_violates"] = r.invariant_violated
@@ -394,19 +458,20 @@ def run(ctx: Ctx):
     ctx.notes["model_behaviours_exported"] = len(behaviours)
     if not behaviours:
         raise tlc.MachineryError("no behaviours exported from the model")
-    if q and len(behaviours) > 3000:
-        behaviours = rng.sample(behaviours, 3000)
+    if q and len(behaviours) > 2000:
+        behaviours = rng.sample(behaviours, 2000)
     elif len(behaviours) > 100000:
         behaviours = rng.sample(behaviours, 100000)
     ctx.notes["model_behaviours_replayed"] = len(behaviours)
     judge_traces(ctx, [case_from_model(v) for v in behaviours], "model-behaviour")
     growth_replay(ctx, rng)
+    hooks_models(ctx, rng)
     table = [v for v in ctx.export(AREA, "MCInputChoice", "MCInputChoice", count_states=True) if isinstance(v, dict) and "in" in v]
     ctx.notes["input_table_rows"] = len(table)
     judge_choices(ctx, choice_cases(rng, table, q))
     # 3. code -> spec
     cases = enum_cases(q)
-    cases += [rand_case(rng) for _ in range(2000 if q else 70000)]
+    cases += [rand_case(rng) for _ in range(1500 if q else 70000)]
     cases += [rand_case(rng, big=True) for _ in range(300 if q else 6000)]
     judge_traces(ctx, cases, "driver")
     # 4. Request-level consumers of the body stream (wrappers/request.py)
